@@ -117,9 +117,13 @@ def load_prop(pid: str):
     raise SystemExit(f'no property module for {pid}')
 
 
-def _init_worker(pid):
+def _init_worker(pid, tmpbase=None):
     global _MOD
     os.environ.setdefault('OMP_NUM_THREADS', '1')
+    if tmpbase:
+        import tempfile
+
+        tempfile.tempdir = tmpbase  # every temp file/dir of the harness lives under the run directory
     _MOD = load_prop(pid)
 
 
@@ -221,24 +225,32 @@ def explore(pid, tier, workers=None, limit=None):
 
     results = [None] * n
     capped = False
-    if nworkers == 1:
-        _init_worker(pid)
-        for t in tasks:
-            for i, s in _run_chunk(t):
-                results[i] = s
-            if budget and time.time() - t0 > budget:
-                capped = True
-                break
-    else:
-        ctx = mp.get_context('spawn')
-        with ctx.Pool(nworkers, initializer=_init_worker, initargs=(pid,)) as pool:
-            for out in pool.imap_unordered(_run_chunk, tasks):
-                for i, s in out:
+    import shutil
+    import tempfile
+
+    tmpbase = tempfile.mkdtemp(prefix=f'verif-run-{pid}-')  # removed below: pool workers are killed, not exited
+    try:
+        if nworkers == 1:
+            _init_worker(pid, tmpbase)
+            for t in tasks:
+                for i, s in _run_chunk(t):
                     results[i] = s
                 if budget and time.time() - t0 > budget:
                     capped = True
-                    pool.terminate()
                     break
+        else:
+            ctx = mp.get_context('spawn')
+            with ctx.Pool(nworkers, initializer=_init_worker, initargs=(pid, tmpbase)) as pool:
+                for out in pool.imap_unordered(_run_chunk, tasks):
+                    for i, s in out:
+                        results[i] = s
+                    if budget and time.time() - t0 > budget:
+                        capped = True
+                        pool.terminate()
+                        break
+    finally:
+        tempfile.tempdir = None
+        shutil.rmtree(tmpbase, ignore_errors=True)
 
     done = [i for i in range(n) if results[i] is not None]
     agg = collections.Counter()
